@@ -5,27 +5,45 @@ import (
 	"strings"
 )
 
+// declares reports whether the line, ignoring surrounding whitespace, starts with the given
+// declaration keyword followed by exactly name: the name has to end there, i.e. it is followed by
+// the end of the line or by a character that cannot continue a name (so that looking for `a`
+// does not stop at the declaration of `ab`).
+func declares(line, keyword, name string) bool {
+	rest, found := strings.CutPrefix(strings.TrimSpace(line), keyword+" "+name)
+	if !found {
+		return false
+	}
+
+	return rest == "" || !isNameChar(rest[0])
+}
+
+func isNameChar(char byte) bool {
+	return char == '_' || char == '-' || char == '.' || char == '/' ||
+		(char >= '0' && char <= '9') || (char >= 'a' && char <= 'z') || (char >= 'A' && char <= 'Z')
+}
+
 func GetConditionLineNumber(conditionName string, lines []string) int {
 	return slices.IndexFunc(lines, func(line string) bool {
-		return strings.HasPrefix(strings.TrimSpace(line), "condition "+conditionName)
+		return declares(line, "condition", conditionName)
 	})
 }
 
 func GetTypeLineNumber(typeName string, lines []string) int {
 	return slices.IndexFunc(lines, func(line string) bool {
-		return strings.HasPrefix(strings.TrimSpace(line), "type "+typeName)
+		return declares(line, "type", typeName)
 	})
 }
 
 func GetExtendedTypeLineNumber(typeName string, lines []string) int {
 	return slices.IndexFunc(lines, func(line string) bool {
-		return strings.HasPrefix(strings.TrimSpace(line), "extend type "+typeName)
+		return declares(line, "extend type", typeName)
 	})
 }
 
 func GetRelationLineNumber(relation string, lines []string) int {
 	return slices.IndexFunc(lines, func(line string) bool {
-		return strings.HasPrefix(strings.TrimSpace(line), "define "+relation)
+		return declares(line, "define", relation)
 	})
 }
 
